@@ -107,10 +107,10 @@ P("C09", [("K11", None), ("V3", None)],
 
 P("C08", [("V11", None)],
   "proof",
-  "Partial: Verus proves on the verbatim text of add_sized_program_clauses and add_copy_program_clauses, for EVERY TyKind variant and variable kind, that exactly the clause dictated by the "
+  "Partial: Verus proves on the verbatim text of add_sized_program_clauses, add_copy_program_clauses, add_clone_program_clauses (same table as Copy) and add_tuple_program_clauses, for EVERY TyKind variant and variable kind, that exactly the clause dictated by the "
   "language table is generated (Sized: never for str/slices/extern types, nothing built in for dyn/alias/placeholder/opaque, last field for ADTs, last element for tuples, the fact for "
   "everything else, flounder on a general unknown; Copy: all elements for tuples, the element for arrays, the captures for closures, the fact for fn items/pointers, nothing built in otherwise). Unbounded.",
-  "Not reached: Clone/Tuple/FnPtr, the outer dispatcher (its match sits in a closure), the helpers' bodies (last_field_of_struct, needs_impl_for_tys), how explicit impls combine (solver).",
+  "Not reached: FnPtr / Fn* / Unsize / Pointee / DiscriminantKind / Coroutine, the outer dispatcher (its match sits in a closure), the helpers' bodies (last_field_of_struct, needs_impl_for_tys), how explicit impls combine (solver).",
   "contract-based deductive verification: Verus on mechanically extracted function text with a ghost clause log")
 
 P("C29", [("V9", None), ("K1", r"^k3_"), ("K7", None)],
